@@ -532,6 +532,69 @@ pub mod verif {
     use crate::common::{alc, fdtinstance, lct, oti, partition, pkt, Profile};
     use std::time::SystemTime;
 
+    /// Scheme specific part of an `Oti` as plain numbers (the enum behind
+    /// `Oti::scheme_specific` is not nameable from outside the crate)
+    #[derive(Debug, Clone, Copy, PartialEq, Eq, Default)]
+    pub struct SchemeSpecificFields {
+        /// Z, number of source blocks (RaptorQ, Raptor)
+        pub z: u16,
+        /// N, number of sub-blocks (RaptorQ, Raptor)
+        pub n: u16,
+        /// Al, symbol alignment (RaptorQ, Raptor)
+        pub al: u8,
+        /// m, field size (Reed-Solomon GF(2^m))
+        pub m: u8,
+        /// G, symbols per group (Reed-Solomon GF(2^m))
+        pub g: u8,
+    }
+
+    /// Set `oti.scheme_specific` for the scheme selected by `oti.fec_encoding_id`
+    pub fn set_scheme_specific(oti: &mut oti::Oti, f: &SchemeSpecificFields) {
+        oti.scheme_specific = match oti.fec_encoding_id {
+            oti::FECEncodingID::RaptorQ => Some(oti::SchemeSpecific::RaptorQ(
+                oti::RaptorQSchemeSpecific {
+                    source_blocks_length: f.z as u8,
+                    sub_blocks_length: f.n,
+                    symbol_alignment: f.al,
+                },
+            )),
+            oti::FECEncodingID::Raptor => {
+                Some(oti::SchemeSpecific::Raptor(oti::RaptorSchemeSpecific {
+                    source_blocks_length: f.z,
+                    sub_blocks_length: f.n as u8,
+                    symbol_alignment: f.al,
+                }))
+            }
+            oti::FECEncodingID::ReedSolomonGF2M => Some(oti::SchemeSpecific::ReedSolomon(
+                oti::ReedSolomonGF2MSchemeSpecific { m: f.m, g: f.g },
+            )),
+            _ => None,
+        };
+    }
+
+    /// Read `oti.scheme_specific` back as plain numbers
+    pub fn get_scheme_specific(oti: &oti::Oti) -> Option<SchemeSpecificFields> {
+        match oti.scheme_specific.as_ref()? {
+            oti::SchemeSpecific::RaptorQ(s) => Some(SchemeSpecificFields {
+                z: s.source_blocks_length as u16,
+                n: s.sub_blocks_length,
+                al: s.symbol_alignment,
+                ..Default::default()
+            }),
+            oti::SchemeSpecific::Raptor(s) => Some(SchemeSpecificFields {
+                z: s.source_blocks_length,
+                n: s.sub_blocks_length as u16,
+                al: s.symbol_alignment,
+                ..Default::default()
+            }),
+            oti::SchemeSpecific::ReedSolomon(s) => Some(SchemeSpecificFields {
+                m: s.m,
+                g: s.g,
+                ..Default::default()
+            }),
+        }
+    }
+
     /// `common::partition::block_partitioning`
     pub fn block_partitioning(b: u64, l: u64, e: u64) -> (u64, u64, u64, u64) {
         partition::block_partitioning(b, l, e)
